@@ -186,6 +186,10 @@ def exhaustive_histories(backend, maxlen, timeout_us):
                     ops.append(["add", backend, s[1], CONTENTS[s[2]], now])
                 for u in (0, 1):
                     ops.append(["get", backend, u, now, timeout_us])
+                if timeout_us is not None:
+                    # the same store seen through an instance with no timeout (instances share the data)
+                    for u in (0, 1):
+                        ops.append(["get", backend, u, now, None])
             yield ops
 
 
@@ -193,8 +197,9 @@ def random_history(rng, n):
     vers = rng.choice([["mem"], ["v:1"], ["v:1", "v:2"], ["v:1", "v:12"]])
     now = rng.choice([0, 1, 999999, 5 * US])
     ops = []
-    timeout = rng.choice([None, 0, US, 2 * US, 3600 * US])
+    timeouts = [rng.choice([None, 0, US, 2 * US, 3600 * US]) for _ in range(2)]
     for _ in range(n):
+        timeout = rng.choice(timeouts)
         k = rng.random()
         b = rng.choice(vers)
         u = rng.randrange(2)
